@@ -392,6 +392,7 @@ def _desugar_enumerate(text, k, rules):
     new = ("let mut %s: usize = 0;\n%swhile %s < %s.len() {\n%s    let %s = &%s[%s];%s\n%s    %s += 1;\n%s}"
            % (ivar, indent, ivar, e_text, indent, xvar, e_text, ivar, newbody.rstrip(), indent, ivar, indent))
     rules.append("R7 for (%s, %s) in %s.iter().enumerate() -> while loop (%d continue rewritten)" % (ivar, xvar, e_text, n_cont))
+    _desugar_enumerate.last_names = (ivar, xvar)
     return text[:toks[kw][2]] + new + text[toks[bc][3]:]
 
 
@@ -749,9 +750,15 @@ def transform_fn(u, fnkey, text, em, meta, is_trait_impl=False, nested=False, st
         plain = _continue_to_else(plain, rules)
     if fnkey in getattr(u, "mut_self", []):
         plain = _mut_self(plain, rules)
+    # placeholders @iN@ / @xN@ in injected text = the index / element variable names of the N-th desugared enumerate loop
+    # of this function AS THEY ARE CALLED IN THE SOURCE on this run (a rename of the loop variable does not lose the proof)
+    r7_names = {}
+    nth = 0
     for (fk, k) in getattr(u, "desugar", []):
         if fk == fnkey:
             plain = _desugar_enumerate(plain, k, rules)
+            r7_names["@i%d@" % nth], r7_names["@x%d@" % nth] = _desugar_enumerate.last_names
+            nth += 1
     plain = _apply_r4(plain, set(r4), rules)
     if add_pub and not is_trait_impl:
         p2 = _ensure_pub(plain)
@@ -898,6 +905,8 @@ def transform_fn(u, fnkey, text, em, meta, is_trait_impl=False, nested=False, st
                 em.emit(buf.rstrip(" \t") if buf.endswith("\n") is False else buf[:-1])
                 buf = ""
             for (lab, l) in sg[1]:
+                for ph, nm in r7_names.items():
+                    l = l.replace(ph, nm)
                 em.emit(l, label=(lab or sg[2]))
     if buf:
         em.emit(buf)
